@@ -82,10 +82,62 @@ type vmDatabase struct {
 
 type vmStmt struct {
 	db    *vmDatabase
+	sdb   *sql.DB
 	query string
 }
 
+// vmPool models database/sql's connection limit (SetMaxOpenConns): an open
+// result set or transaction holds a connection until it is closed; every other
+// statement needs one for its duration. With the limit reached, the caller
+// waits (for ever under a context that is never cancelled) - which is how a
+// store that touches the database from inside its own cursor loop deadlocks.
+type vmPool struct {
+	sem chan struct{}
+}
+
+var vmPools = map[*sql.DB]*vmPool{}
+
+//verif:redirect (*database/sql.DB).SetMaxOpenConns
+func vmDBSetMaxOpenConns(db *sql.DB, n int) {
+	if n > 0 {
+		vmPools[db] = &vmPool{sem: make(chan struct{}, n)}
+	} else {
+		delete(vmPools, db)
+	}
+}
+
+//verif:redirect (*database/sql.DB).SetMaxIdleConns
+func vmDBSetMaxIdleConns(db *sql.DB, n int) {}
+
+//verif:redirect (*database/sql.DB).SetConnMaxLifetime
+func vmDBSetConnMaxLifetime(db *sql.DB, d time.Duration) {}
+
+// vmAcquire takes a connection of db's pool (nil pool: unlimited).
+func vmAcquire(db *sql.DB, ctx context.Context) (*vmPool, error) {
+	p := vmPools[db]
+	if p == nil {
+		return nil, nil
+	}
+	if ctx == nil {
+		p.sem <- struct{}{}
+		return p, nil
+	}
+	select {
+	case p.sem <- struct{}{}:
+		return p, nil
+	case <-ctx.Done():
+		return nil, ctx.Err()
+	}
+}
+
+func (p *vmPool) release() {
+	if p != nil {
+		<-p.sem
+	}
+}
+
 type vmRows struct {
+	pool   *vmPool // connection held until the rows are closed
 	rows   []vmEventRow
 	i      int // index of the current row (after Next)
 	err    error
@@ -129,11 +181,18 @@ func vmDBClose(db *sql.DB) error { return nil }
 
 //verif:redirect (*database/sql.DB).Exec
 func vmDBExec(db *sql.DB, query string, args ...any) (sql.Result, error) {
+	p, _ := vmAcquire(db, nil)
+	defer p.release()
 	return vmExec(vmDBs[db], query, args)
 }
 
 //verif:redirect (*database/sql.DB).ExecContext
 func vmDBExecContext(db *sql.DB, ctx context.Context, query string, args ...any) (sql.Result, error) {
+	p, err := vmAcquire(db, ctx)
+	if err != nil {
+		return nil, err
+	}
+	defer p.release()
 	return vmExec(vmDBs[db], query, args)
 }
 
@@ -144,25 +203,64 @@ func vmDBPrepare(db *sql.DB, query string) (*sql.Stmt, error) {
 		vUnsupported("vsql: statement not recognised by the model: " + query)
 	}
 	s := new(sql.Stmt)
-	vmStmts[s] = &vmStmt{db: vmDBs[db], query: query}
+	vmStmts[s] = &vmStmt{db: vmDBs[db], sdb: db, query: query}
 	return s, nil
 }
 
 //verif:redirect (*database/sql.DB).QueryContext
 func vmDBQueryContext(db *sql.DB, ctx context.Context, query string, args ...any) (*sql.Rows, error) {
-	return vmQuery(vmDBs[db], ctx, query, args)
+	return vmQueryPooled(db, vmDBs[db], ctx, query, args)
+}
+
+func vmQueryPooled(db *sql.DB, d *vmDatabase, ctx context.Context, query string, args []any) (*sql.Rows, error) {
+	p, err := vmAcquire(db, ctx)
+	if err != nil {
+		return nil, err
+	}
+	rows, err := vmQuery(d, ctx, query, args)
+	if err != nil {
+		p.release()
+		return nil, err
+	}
+	vmRowsOf[rows].pool = p
+	return rows, nil
+}
+
+func vmQueryRowPooled(db *sql.DB, d *vmDatabase, ctx context.Context, query string, args []any) *sql.Row {
+	p, err := vmAcquire(db, ctx)
+	if err != nil {
+		row := new(sql.Row)
+		vmRowOf[row] = &vmRow{err: err}
+		return row
+	}
+	defer p.release()
+	return vmQueryRow(d, ctx, query, args)
 }
 
 //verif:redirect (*database/sql.DB).QueryRowContext
 func vmDBQueryRowContext(db *sql.DB, ctx context.Context, query string, args ...any) *sql.Row {
-	return vmQueryRow(vmDBs[db], ctx, query, args)
+	return vmQueryRowPooled(db, vmDBs[db], ctx, query, args)
 }
 
 //verif:redirect (*database/sql.DB).BeginTx
 func vmDBBeginTx(db *sql.DB, ctx context.Context, opts *sql.TxOptions) (*sql.Tx, error) {
+	p, err := vmAcquire(db, ctx)
+	if err != nil {
+		return nil, err
+	}
 	tx := new(sql.Tx)
 	vmTxs[tx] = vmDBs[db]
+	vmTxPool[tx] = p
 	return tx, nil
+}
+
+var vmTxPool = map[*sql.Tx]*vmPool{}
+
+func vmTxDone(tx *sql.Tx) {
+	if p, ok := vmTxPool[tx]; ok {
+		p.release()
+		delete(vmTxPool, tx)
+	}
 }
 
 //verif:redirect (*database/sql.Tx).ExecContext
@@ -171,10 +269,10 @@ func vmTxExecContext(tx *sql.Tx, ctx context.Context, query string, args ...any)
 }
 
 //verif:redirect (*database/sql.Tx).Commit
-func vmTxCommit(tx *sql.Tx) error { return nil }
+func vmTxCommit(tx *sql.Tx) error { vmTxDone(tx); return nil }
 
 //verif:redirect (*database/sql.Tx).Rollback
-func vmTxRollback(tx *sql.Tx) error { return nil }
+func vmTxRollback(tx *sql.Tx) error { vmTxDone(tx); return nil }
 
 //verif:redirect (*database/sql.Stmt).Close
 func vmStmtClose(s *sql.Stmt) error { return nil }
@@ -182,19 +280,24 @@ func vmStmtClose(s *sql.Stmt) error { return nil }
 //verif:redirect (*database/sql.Stmt).ExecContext
 func vmStmtExecContext(s *sql.Stmt, ctx context.Context, args ...any) (sql.Result, error) {
 	st := vmStmts[s]
+	p, err := vmAcquire(st.sdb, ctx)
+	if err != nil {
+		return nil, err
+	}
+	defer p.release()
 	return vmExec(st.db, st.query, args)
 }
 
 //verif:redirect (*database/sql.Stmt).QueryContext
 func vmStmtQueryContext(s *sql.Stmt, ctx context.Context, args ...any) (*sql.Rows, error) {
 	st := vmStmts[s]
-	return vmQuery(st.db, ctx, st.query, args)
+	return vmQueryPooled(st.sdb, st.db, ctx, st.query, args)
 }
 
 //verif:redirect (*database/sql.Stmt).QueryRowContext
 func vmStmtQueryRowContext(s *sql.Stmt, ctx context.Context, args ...any) *sql.Row {
 	st := vmStmts[s]
-	return vmQueryRow(st.db, ctx, st.query, args)
+	return vmQueryRowPooled(st.sdb, st.db, ctx, st.query, args)
 }
 
 func vmArgInt(a any) int64 {
@@ -362,6 +465,8 @@ func vmRowsNext(rows *sql.Rows) bool {
 		// database/sql closes the driver rows as soon as Next reports the end (or an
 		// error); a failure of that close surfaces through Err() when nothing failed before
 		r.closed = true
+		r.pool.release()
+		r.pool = nil
 		if vmSQLFault(vmOpClose) && r.err == nil {
 			r.err = vmSQLErr
 		}
@@ -371,6 +476,8 @@ func vmRowsNext(rows *sql.Rows) bool {
 		// fetching the next row failed: Next reports false and Err() is set
 		r.err = vmSQLErr
 		r.closed = true
+		r.pool.release()
+		r.pool = nil
 		vmSQLFault(vmOpClose) // the driver rows are closed; that close cannot add an error
 		return false
 	}
@@ -416,6 +523,10 @@ func vmRowsClose(rows *sql.Rows) error {
 	r := vmRowsOf[rows]
 	already := r.closed
 	r.closed = true
+	if !already {
+		r.pool.release()
+		r.pool = nil
+	}
 	if !already && vmSQLFault(vmOpClose) {
 		return vmSQLErr
 	}
